@@ -6,6 +6,7 @@ struct LockstepExec {
   Run &run; std::string prop;
   Session S;
   bool check_rate = false;       // C05 oracles
+  Bytes last_pkt, prev_pkt;      // the two most recent packets (middlebox ops of other scenarios)
   // settings model (the subset the oracles need)
   int m_bitrate = OPUS_AUTO, m_vbr = 1, m_cvbr = 1, m_dtx = 0;
   // multistream CBR: size of previous non-DTX packet under unchanged settings
@@ -105,6 +106,7 @@ struct LockstepExec {
     }
     run.api_ok++;
     S.frames_encoded++;
+    prev_pkt.swap(last_pkt); last_pkt = pkt;
     std::string bad = check_packet_valid(S, pkt, expect, run);
     if (!bad.empty()) REPORT(run, prop, bad, "frame=%d max=%d ret=%d toc=%02x", frame_size, max_bytes, ret, pkt[0]);
     opus_uint32 erange = S.enc.final_range();
@@ -186,15 +188,17 @@ struct LockstepExec {
     }
   }
 
+  bool do_op(const Op &op) {
+    if (op.k == "ENCNEW") { S.op_encnew(op, run); settings_changed(); m_bitrate = OPUS_AUTO; m_vbr = 1; m_cvbr = 1; m_dtx = 0; }
+    else if (op.k == "DECNEW") S.op_decnew(op, run);
+    else if (op.k == "SRC") S.op_src(op);
+    else if (op.k == "CTL") op_ctl(op);
+    else if (op.k == "ENC") op_enc(op);
+    else return false;
+    return true;
+  }
   void run_plan(const Plan &p) {
-    for (size_t i = 0; i < p.ops.size(); i++) {
-      const Op &op = p.ops[i]; run.cur_op = (int)i;
-      if (op.k == "ENCNEW") { S.op_encnew(op, run); settings_changed(); m_bitrate = OPUS_AUTO; m_vbr = 1; m_cvbr = 1; m_dtx = 0; }
-      else if (op.k == "DECNEW") S.op_decnew(op, run);
-      else if (op.k == "SRC") S.op_src(op);
-      else if (op.k == "CTL") op_ctl(op);
-      else if (op.k == "ENC") op_enc(op);
-    }
+    for (size_t i = 0; i < p.ops.size(); i++) { run.cur_op = (int)i; do_op(p.ops[i]); }
     cvbr_close();
   }
 };
